@@ -721,7 +721,9 @@ Definition gen_tables_ok : bool :=
     (map op_of_string ops)
     [OpEq; OpNe; OpGt; OpLt; OpGe; OpLe; OpStartsWith; OpContains; OpNotContains; OpExists;
      OpNotExists; OpHasRoot; OpMatches; OpIn; OpNotIn] &&
-  String.eqb num_descendants (computed_prefix ++ "NUM_DESCENDANTS").
+  String.eqb num_descendants (computed_prefix ++ "NUM_DESCENDANTS") &&
+  String.eqb convert_to_string_text
+    "if f, ok := v.(float64); ok && f == math.Trunc(f) && math.Abs(f) < 1<<63 { return strconv.FormatInt(int64(f), 10) } return fmt.Sprintf(""%v"", v)".
 
 
 Lemma gen_tables_hold : gen_tables_ok = true.
